@@ -80,7 +80,9 @@ func loadFormat(data []byte) (format uint8, read int, err error) {
 	if err != nil {
 		return 0, 0, err
 	}
-	if len(data) <= read {
+	// Every format needs data after the identifier, except for RAW, where
+	// no data is the empty value.
+	if len(data) <= read && format != RAW {
 		return 0, 0, io.ErrUnexpectedEOF
 	}
 
